@@ -29,8 +29,9 @@ def gen(rng, tier):
     for r in range(10 if tier == "quick" else 200):
         mem, halt, multi = programs.gen_program(rng)
         cid = "k%d" % k; k += 1
-        lines.append(programs.run_line(cid, programs.start_state(rng), mem, cancel=0, nruns=40 if tier == "quick" else 400, inputs=[5, 6]))
-        meta[cid] = ("terminating", "never cancelled, repeated")
+        mode = rng.choice([0, 3])
+        lines.append(programs.run_line(cid, programs.start_state(rng), mem, cancel=mode, nruns=40 if tier == "quick" else 400, inputs=[5, 6]))
+        meta[cid] = ("terminating", "never cancelled during Run, repeated" + (", context cancelled right after each return" if mode == 3 else ""))
     return lines, meta
 
 def judge(lines, meta, go_bin, drv, model):
@@ -123,7 +124,7 @@ def run(tier, seed):
         rep = {"property": PROP, "broken": broken, "detail": detail, "tier": tier, "seed": seed, "repo": common.repo_describe()}
         if bad:
             i, l, d = bad[0]
-            rep["input"] = {"case": l, "about": str(meta.get(i)), "differs": [{"what": a, "real_code": b, "required": c} for a, b, c in d]}
+            rep["input"] = {"case": l, "about": str(meta.get(i)), "kind": meta.get(i, ("loop", ""))[0], "differs": [{"what": a, "real_code": b, "required": c} for a, b, c in d]}
             common.violation(PROP, rep)
         else:
             rep["input"] = None
@@ -152,7 +153,7 @@ def replay(path):
     if not rep.get("input"):
         print("no concrete input stored; broken:", rep.get("broken")); return 1
     l = rep["input"]["case"]
-    meta = {l.split()[1]: ("loop", "")}
+    meta = {l.split()[1]: (rep["input"].get("kind", "loop"), "")}
     bad = judge([l], meta, pipeline.build_stepper(), pipeline.build_spec_driver(), 1)
     print(bad[0][2] if bad else "passes now")
     return 1 if bad else 0
